@@ -19,8 +19,14 @@ Pipeline (spec/C03_LAOStar.tla decides every exact quantity):
      availability, exact policy return) -> VIOLATION; anything about how the run got there -> DRIFT.
 """
 import math
+import os
 import random
 import warnings
+
+# The ladder runs solve dense systems of a few hundred unknowns hundreds of times; a multi-threaded BLAS on a shared,
+# loaded machine makes each of them ~100x slower (measured: 70 s vs 0.4 s).  Must be set before numpy is imported.
+for _v in ("OMP_NUM_THREADS", "OPENBLAS_NUM_THREADS", "MKL_NUM_THREADS"):
+    os.environ.setdefault(_v, "1")
 from fractions import Fraction as F
 
 from .. import gen, build, pyoracle
@@ -61,8 +67,8 @@ REPS = [
     dict(rep="sparse", labels="int", alabels="str", explicit_list=False, dist="sparse"),
     dict(rep="sparse", labels="mixed", alabels="tuple", explicit_list=False, dist="sparse"),
 ]
-TIERS = {"quick": dict(n_inst=140, per_inst=6, n_mc=20, mc_cap=120, n_light=24, n_special=16, n_light_special=12),
-         "thorough": dict(n_inst=1200, per_inst=8, n_mc=160, mc_cap=400, n_light=40, n_special=120, n_light_special=24)}
+TIERS = {"quick": dict(n_inst=140, per_inst=6, n_mc=20, mc_cap=120, n_light=24, n_special=16, n_light_special=12, n_ladder=6),
+         "thorough": dict(n_inst=1200, per_inst=8, n_mc=160, mc_cap=400, n_light=40, n_special=120, n_light_special=24, n_ladder=30)}
 FLAGS = [(0, 0), (1, 1), (0, 1), (1, 0)]
 HKINDS = ["const", "exact", "slack", "vslack"]
 INST_KEYS = ("N", "K", "PD", "GN", "GD", "ID", "abs", "avail", "P", "R", "p0")
@@ -358,7 +364,8 @@ def make_runs(rng, m, vstar, per_instance, fx=None, pair=None):
     """fx: special-family data (see build_custom) - those runs use the driver's own builder; pair: (other instance,
     its V*) - the runs share one LAOStar object with `other` (heuristics admissible for both)."""
     runs = []
-    seeds = [0, 1, 7, 2 ** 31 - 1, rng.randrange(10 ** 6), rng.randrange(10 ** 9)]
+    # "every seed": seeds are ints (LAOStar's documented type) - zero, small, negative, beyond 64 bits
+    seeds = [0, 1, -1, 2 ** 31 - 1, rng.randrange(10 ** 6), -rng.randrange(1, 10 ** 9), 7, 2 ** 70 + rng.randrange(10 ** 6)]
     kinds = [k for k in HKINDS if not (fx and "lev" in fx and k == "const")]    # a constant cannot bound shifted values
     rng.shuffle(kinds)
     reps = [r for r in REPS if r["rep"] == "sparse"] if fx else [r for r in REPS if r["rep"] != "sparse"] if pair else REPS
@@ -368,7 +375,9 @@ def make_runs(rng, m, vstar, per_instance, fx=None, pair=None):
         hk = kinds[k % len(kinds)]
         rep = dict(reps[rng.randrange(len(reps))])
         rc = {"hk": hk, "H": heuristic_table(rng, hk, hv), "rao": rao, "rno": rno,
-              "seed": seeds[(k + rng.randrange(6)) % 6], "rep": rep, "lseed": rng.randrange(10 ** 6)}
+              "seed": seeds[(k + rng.randrange(len(seeds))) % len(seeds)], "rep": rep, "lseed": rng.randrange(10 ** 6)}
+        if hk == "const":
+            rc["hnum"] = CONST_KINDS[rng.randrange(len(CONST_KINDS))]
         if rep["rep"] == "sparse":
             rc["zl"], rc["z0"] = no_zeros(m) if (fx and "rare" in fx) else sparse_zeros(rng, m)
         if fx:
@@ -377,6 +386,21 @@ def make_runs(rng, m, vstar, per_instance, fx=None, pair=None):
             rc["pair"] = {"role": "first" if k % 3 else "second", "other": pair[0]}
         runs.append({"m": m, "rc": rc})
     return runs
+
+
+# a constant bound is "a number": the ways a caller may hold the same integer value c
+# (np.float32 is left out on purpose: under NumPy's promotion rules a float32 heuristic value turns msdm's own
+#  backups `prob * (reward + discount * value)` into single-precision arithmetic - intermediate values deviate by
+#  ~1e-8 relative on the unchanged tree, so the 1e-9 clause tolerance would not be sound for that input)
+CONST_KINDS = ["int", "float", "np.int64", "np.int32", "np.float64", "Fraction"]
+
+
+def const_number(kind, c):
+    import numpy as np
+    c = int(c)
+    return {"int": lambda: c, "float": lambda: float(c), "np.int64": lambda: np.int64(c),
+            "np.int32": lambda: np.int32(c), "np.float32": lambda: np.float32(c), "np.float64": lambda: np.float64(c),
+            "Fraction": lambda: F(c)}[kind]()
 
 
 def shaped_fx(rng, m):
@@ -482,7 +506,7 @@ def run_real(m, rc):
     H = [frac(x) for x in rc["H"]]
     off = offsets(m, rc)
     if rc["hk"] == "const":
-        heuristic = int(H[0]) if H[0].denominator == 1 else float(H[0])     # a plain number
+        heuristic = const_number(rc.get("hnum", "int"), H[0]) if H[0].denominator == 1 else float(H[0])     # a number, not a callable
     else:
         hv = {b.slabel[i]: float(H[i] - off[i]) for i in range(m["N"])}
         heuristic = (lambda table: lambda s: table[s])(hv)
@@ -990,6 +1014,186 @@ def _tips_tie_in_float(o, rc, ties, tol=0.0):
     return True
 
 
+
+# --------------------------------------------------------------------------------------------
+# ladders: large instances given structurally (spec mode "chain")
+# --------------------------------------------------------------------------------------------
+def ladder_case(rng):
+    """n = 215..260 rungs; rung k uses gadget k mod G: one non-absorbing state whose actions stay with probability
+    stay/PD and climb otherwise (PD = 3, 7, 10: not representable in single precision), rewards <= 0."""
+    PD, G, K = rng.choice([3, 10, 7, 10]), rng.choice([1, 2, 3]), rng.choice([2, 3])
+    gs = []
+    for _ in range(G):
+        av = [0] * K
+        while sum(av) < min(2, K):
+            av = [1 if rng.random() < 0.8 else 0 for _ in range(K)]
+        P = [[[0, 0] for _ in range(K)] for _ in range(2)]
+        R = [[[0, 0] for _ in range(K)] for _ in range(2)]
+        for a in range(K):
+            stay = rng.randint(0, PD - 1)
+            P[0][a] = [stay, PD - stay]
+            R[0][a] = [rng.choice([-3, -2, -1, 0]), rng.choice([-3, -2, -1])]
+            P[1][a] = [0, PD]
+        gs.append({"N": 2, "K": K, "PD": PD, "GN": 1, "GD": 1, "ID": 2, "abs": [0, 1], "avail": [av, [1] * K],
+                   "P": P, "R": R, "p0": [2, 0]})
+    return {"gs": gs, "n": rng.randint(215, 260)}
+
+
+def run_ladder(case, rc):
+    """The real LAOStar on the ladder; returns abstract results (rung index 0..n-1, goal = n)."""
+    from msdm.algorithms.laostar import LAOStar
+    from msdm.core.distributions import DictDistribution
+    from msdm.core.mdp import QuickMDP
+    gs, n = case["gs"], case["n"]
+    G, K, PD = len(gs), gs[0]["K"], gs[0]["PD"]
+    lab = (lambda k: k) if rc["labels"] == "int" else (lambda k: ("rung", k))
+    idx = {lab(k): k for k in range(n + 1)}
+    al = [f"a{a}" for a in range(K)]
+    ai = {a: i for i, a in enumerate(al)}
+
+    def gad(k):
+        return gs[k % G]
+
+    def nsd(s, a):
+        k, j = idx[s], ai[a]
+        if k == n:
+            return DictDistribution({s: 1.0})
+        stay, climb = gad(k)["P"][0][j]
+        d = {lab(k + 1): climb / PD}
+        if stay:
+            d[s] = stay / PD
+        return DictDistribution(d)
+
+    def reward(s, a, ns):
+        k, j = idx[s], ai[a]
+        if k == n:
+            return 0.0
+        return float(gad(k)["R"][0][j][0 if ns == s else 1])
+    mdp = QuickMDP(next_state_dist=nsd, reward=reward,
+                   actions=lambda s: [al[a] for a in range(K) if idx[s] == n or gad(idx[s])["avail"][0][a]],
+                   initial_state_dist=DictDistribution({lab(0): 1.0}), is_absorbing=lambda s: idx[s] == n, discount_rate=1.0)
+    try:
+        with warnings.catch_warnings():
+            warnings.simplefilter("ignore")
+            r = LAOStar(heuristic=const_number(rc["hnum"], rc["hc"]), randomize_action_order=bool(rc["rao"]),
+                        randomize_nextstate_order=bool(rc["rno"]), seed=rc["seed"]).plan_on(mdp)
+    except Exception as e:                               # noqa: BLE001 - a clause failure ("reports convergence")
+        return {"error": f"{type(e).__name__}: {e}"[:300], "etype": type(e).__name__}
+    out = {"converged": bool(r.converged), "initial_value": float(r.initial_value),
+           "svm": {idx[s]: float(v) for s, v in r.state_value_map.items()}}
+    pol, polerr = {}, None
+    for k in range(n):                                   # every rung is reached with positive probability
+        try:
+            d = r.policy.action_dist(lab(k))
+            sup = {}
+            for a in d.support:
+                p = float(d.prob(a))
+                if p > 0:
+                    if a not in ai or not gad(k)["avail"][0][ai[a]]:
+                        polerr = ("unavailable-action", k, repr(a)[:60])
+                        break
+                    sup[ai[a]] = p
+            if polerr is None and (not sup or abs(sum(sup.values()) - 1) > 1e-9):
+                polerr = ("not-a-distribution", k, repr(sup)[:80])
+        except Exception as e:                           # noqa: BLE001
+            polerr = ("undefined", k, f"{type(e).__name__}: {e}"[:200])
+        if polerr is not None:
+            break
+        pol[k] = sup
+    out["pol"], out["polerr"] = pol, polerr
+    return out
+
+
+def judge_ladders(ctx, cases, reals=None):
+    """cases: [{ladder, rc}].  One TLC run in mode "chain": exact value of every rung, exact return of the policy."""
+    if reals is None:
+        reals = [run_ladder(c["ladder"], c["rc"]) for c in cases]
+    ctx.evaluations += len(cases)
+    batch = []
+    for i, (c, o) in enumerate(zip(cases, reals)):
+        gs, n = c["ladder"]["gs"], c["ladder"]["n"]
+        polok = "error" not in o and o["polerr"] is None
+        groups = {}
+        if polok:
+            for k in range(n):
+                sup = o["pol"][k]
+                if any(abs(p - 1 / len(sup)) > 1e-9 for p in sup.values()):
+                    polok = False
+                    break
+                key = (k % len(gs), tuple(sorted(sup)))
+                groups[key] = groups.get(key, 0) + 1
+        pols = [{"g": g + 1, "pol": [[1 if a in sup else 0 for a in range(gs[g]["K"])], [1] * gs[g]["K"]], "cnt": cnt}
+                for (g, sup), cnt in sorted(groups.items())] if polok else []
+        batch.append({"gs": gs, "n": n, "hc": c["rc"]["hc"], "pols": pols, "polok": 1 if polok else 0, "tag": i})
+    res = run_tlc(ctx.workdir / "chain", MODULE, CFG_ORACLE + "INVARIANT InstanceOK\n", files={"batch.json": batch},
+                  env={"BATCH_FILE": "batch.json", "MODE": "chain"})
+    ctx.add_tlc(res, "chain: ladders of 215-260 rungs given structurally: exact rung values and exact return of the returned policy")
+    check_design(res, "chain mode")
+    by = {r["tag"]: r for r in res.records if r.get("kind") == "chain"}
+    for i, (c, o) in enumerate(zip(cases, reals)):
+        rec = by.get(i)
+        if rec is None:
+            raise TLCFailure(f"no chain record for ladder {i}")
+        n, rc = c["ladder"]["n"], c["rc"]
+        shape = f"undiscounted/ladder>200/h=const[{rc['hnum']}]"
+        ok = True
+
+        def fail(site, what):
+            nonlocal ok
+            ok = False
+            ctx.violation(f"C03:{site}:{shape}", f"{site}: {what}", {"ladder": c["ladder"], "rc": rc, "site": site})
+        ctx.count("ladder_runs")
+        if "error" in o:
+            fail(f"LAOStar.plan_on[raised {o['etype']}]", f"raised {o['error']} on a valid instance (no convergence reported)")
+            continue
+        lv = [frac(x) for x in rec["lv"]] + [F(0)]
+        if i % 2 == 0:                                   # machinery cross-check: independent Fraction recursion
+            acc, mine = F(0), []
+            for k in range(n - 1, -1, -1):
+                g = c["ladder"]["gs"][k % len(c["ladder"]["gs"])]
+                best = max((F(g["P"][0][a][0] * g["R"][0][a][0] + g["P"][0][a][1] * g["R"][0][a][1], g["P"][0][a][1])
+                            for a in range(g["K"]) if g["avail"][0][a]))
+                acc += best
+                mine.append(acc)
+            if list(reversed(mine)) != lv[:-1]:
+                raise TLCFailure(f"TLA+ ladder values and Python ladder values disagree (ladder {i})")
+            ctx.count("oracle_crosschecks")
+        if o["converged"] is not True:
+            fail("PlanningResult.converged", f"converged={o['converged']}")
+        if not near(o["initial_value"], lv[0]):
+            fail("PlanningResult.initial_value", f"initial_value={o['initial_value']!r} but the optimum is {lv[0]} = {float(lv[0])!r} "
+                                                 f"({n} rungs)")
+        for k, v in sorted(o["svm"].items()):
+            if not (v >= float(lv[k]) - 1e-9 * max(1.0, abs(float(lv[k])))):
+                fail("PlanningResult.state_value_map", f"value {v!r} held for rung {k} is below V*={float(lv[k])!r}")
+                break
+        if o["polerr"] is not None:
+            kind, k, det = o["polerr"]
+            fail(f"PlanningResult.policy[{kind}]", f"policy at reachable rung {k}: {kind} ({det})")
+        elif rec["ret"][1] == 0:
+            ctx.count("policy_not_uniform_over_support_judge_skipped")
+        elif rec["polopt"] != 1:
+            fail("PlanningResult.policy[return]", f"exact return of the returned policy is {frac(rec['ret'])} but the optimum is {lv[0]}")
+        if ok:
+            ctx.count("ladder_runs_all_clauses_hold")
+            if len(o["svm"]) > 200:
+                ctx.nontrivial(digest({"ladder": c["ladder"], "rc": rc}))
+        cc = ctx.extra.setdefault("config_counts", {})
+        for key in (f"hnum={rc['hnum']}", "ladder"):
+            cc[key] = cc.get(key, 0) + 1
+
+
+def make_ladder_cases(rng, k):
+    out = []
+    seeds = [0, -3, 5, 2 ** 66, -(2 ** 40), 11]
+    for i in range(k):
+        out.append({"ladder": ladder_case(rng),
+                    "rc": {"hc": rng.choice([0, 0, 1]), "hnum": CONST_KINDS[(i + rng.randrange(2)) % len(CONST_KINDS)],
+                           "rao": FLAGS[i % 4][0], "rno": FLAGS[i % 4][1], "seed": seeds[i % len(seeds)],
+                           "labels": "int" if i % 2 else "tuple"}})
+    return out
+
+
 # --------------------------------------------------------------------------------------------
 # tiers
 # --------------------------------------------------------------------------------------------
@@ -1148,10 +1352,15 @@ def run(ctx):
     reals = [r.pop("_real") if "_real" in r else run_real(r["m"], r["rc"]) for r in runs]
     ctx.count("pipeline_A_runs", len(mcref))
     judge_runs(ctx, runs, reals=reals, mcref=mcref)
+    # ---- ladders: revisions over more than 200 states
+    judge_ladders(ctx, make_ladder_cases(random.Random(ctx.seed * 13 + 1), t["n_ladder"]))
 
 
 def replay(ctx, case):
-    judge_runs(ctx, [{"m": case["m"], "rc": case["rc"]}])
+    if "ladder" in case:
+        judge_ladders(ctx, [{"ladder": case["ladder"], "rc": case["rc"]}])
+    else:
+        judge_runs(ctx, [{"m": case["m"], "rc": case["rc"]}])
 
 
 def selftest(ctx):
